@@ -51,6 +51,12 @@ struct QProbe : Queue {
     static std::mutex &mx(Queue &q) { return q.*(&QProbe::_mx); }
 };
 
+// the `_woken` bit of a registration (repair of the copy-of-woken defect) is projected when the tree under test has it
+template <typename R>
+static void set_woken(J &jr, const R &r) {
+    if constexpr (requires { r._woken; }) jr.set("woken", r._woken);
+}
+
 struct SubProbe : SubT {
     SubProbe(Pub &p, cocls::subscribtion_type t) : SubT(p, t) {}
     SubProbe(Pub &p, std::size_t pos, cocls::subscribtion_type t) : SubT(p, pos, t) {}
@@ -212,7 +218,7 @@ struct World {
             jr.set("pos", r._pos);
             jr.set("used", r._used);
             jr.set("kicked", r._kicked);
-            if constexpr (requires { r._woken; }) jr.set("woken", r._woken);
+            set_woken(jr, r);
             int owner = 0;
             if (!r._used && r._awt) {
                 // stale awaiter pointer of a subscriber that was destroyed while parked
